@@ -16,4 +16,5 @@ def run(ctx):
         "Validate() is judged on documents the specification's strict decoder accepts (structure intact), decoded by json.Unmarshal and, "
         "separately, by UnmarshalJSONStrict",
     ], must=("defaults-str-bool", "falsy-defaults", "case-twins", "two-packages", "two-packages-reversed",
-             "reused-union-orders", "reused-union-orders-reversed", "half-open-ranges", "reused-ref-orders"))
+             "reused-union-orders", "reused-union-orders-reversed", "half-open-ranges", "reused-ref-orders",
+             "optional-defaults", "negative-bounds", "openapi-annotations"))
